@@ -339,6 +339,12 @@ def rule_c11_worker(prog: Program, col: Collector) -> None:
     sk = [e for e in ft.calls("set_known_values") if e.recv == game]
     col.check(bool(aps) or bool(sk), ref.where(), ref.short, "worker resets the knowledge of its game to (starting knowledge + the set)", construct="worker-reset",
               necessity="the gap reported for a set must be that of the game in which exactly the starting knowledge plus that set is known")
+    for e in sk:
+        vals = e.args[0] if e.args else ("unknown", "")
+        own_reads = [s2 for s2 in subterms(vals) if s2[0] == "call" and s2[1][0] == "attr" and s2[1][1] == game and s2[1][2] in ("get_values", "get_value", "get_known_values")]
+        col.check(not own_reads, ref.where(e.node), ref.short, "every value the worker sets is fetched from the hidden full game (not from its own game copy)",
+                  construct="worker-values-from-own-game",
+                  necessity="the worker's game copy holds whatever an earlier task or sample left in it: the starting knowledge must carry the CURRENT full game's values")
     for e in aps:
         okargs = len(e.args) >= 3 and e.args[0] == game and e.args[1] == ("param", params[1]) and e.args[2] == ("param", params[2])
         inc = e.kwargs.get("include") if "include" in e.kwargs else (e.args[3] if len(e.args) > 3 else None)
